@@ -1009,12 +1009,14 @@ class AdapterRegistry(BaseAdapterRegistry):
 class VerifyingAdapterLookup(AdapterLookupBase, VerifyingBase):
 
     def changed(self, originally_changed=None):
-        if originally_changed is None:
-            # Called by ``_verify()``: a registry above ours changed without
-            # telling us (verifying registries get no notifications). It may
-            # have been its ``__bases__``, which are part of our registry's
-            # resolution order, so that has to be brought up to date as well.
-            self._registry._update_ro()
+        # Verifying registries get no notifications from the registries
+        # above them: we are called when our own registry changed, or by
+        # ``_verify()`` when the generation of one above it did. Either
+        # way, ``__bases__`` may have been assigned somewhere above us in
+        # the meantime, and those are part of our registry's resolution
+        # order; it has to be brought up to date before the generations
+        # along it are recorded.
+        self._registry._update_ro()
         super().changed(originally_changed)
 
 
